@@ -69,6 +69,8 @@ def EW_OPS(C, R):
                 ('m*=self', '{ auto m = A; auto const& r = m; m *= r; stm(o+%d, m); }', lambda A, B, s, k: flat(mmul(unflat(A, C, R), unflat(A, C, R)))[k])]        # right-hand side aliases the object
     return ops
 
+SAL_OPS = ['+=', '-=', '*=', '/=']
+def SAL_ENTRIES(C, R): return [(0, 0), (1, 1), (C - 1, R - 1)]
 def one(x): return z3.BitVecVal(1, x.size()) if z3.is_bv(x) else (z3.IntVal(1) if z3.is_int(x) else z3.RealVal(1))
 def zero(x): return z3.BitVecVal(0, x.size()) if z3.is_bv(x) else (z3.IntVal(0) if z3.is_int(x) else z3.RealVal(0))
 def unflat(a, C, R): return [[a[c * R + r] for r in range(R)] for c in range(C)]
@@ -120,6 +122,10 @@ def build_unit(t, suffix='', defines=(), only=None, cflags=()):
         U.add('ew_%d%d' % (C, R), [(ct, N), (ct, N), (ct, 1)], [(ct, len(ops) * N)], body)
         U.add('divs_%d%d' % (C, R), [(ct, N), (ct, 1)], [(ct, 2 * N)], 'auto A = %s; T s = b[0]; stm(o, A / s); { auto m = A; m /= s; stm(o+%d, m); }' % (M(C, R, 'a'), N))
         U.add('sdiv_%d%d' % (C, R), [(ct, N), (ct, 1)], [(ct, N)], 'auto A = %s; T s = b[0]; stm(o, s / A);' % M(C, R, 'a'))
+        # scalar compound assignments whose right-hand side is an ELEMENT OF THE ASSIGNED MATRIX (m /= m[0][0]): every entry is combined with the ORIGINAL value of that element
+        body = 'auto A = %s;\n' % M(C, R, 'a')
+        body += '\n'.join('{ auto m = A; m %s m[%d][%d]; stm(o+%d, m); }' % (op, c_, r_, (io * len(SAL_ENTRIES(C, R)) + ie) * N) for io, op in enumerate(SAL_OPS) for ie, (c_, r_) in enumerate(SAL_ENTRIES(C, R)))
+        U.add('sal_%d%d' % (C, R), [(ct, N)], [(ct, len(SAL_OPS) * len(SAL_ENTRIES(C, R)) * N)], body)
         # transpose / outerProduct / constructors / row+column access
         body = 'auto A = %s; auto cv = %s; auto rv = %s;\n' % (M(C, R, 'a'), V(R, 'b'), V(C, 'c'))
         body += 'stm(o, glm::transpose(A)); stm(o2, glm::outerProduct(cv, rv));\n'
@@ -328,6 +334,25 @@ def job_ew(t, shapes, U=None):
             S.check_fn(U, 'sdiv_%d%d' % (C, R), mkspec(sp_sdiv), lambda i: [h for x in i[0] for h in div_ok(t, i[1][0], x)], mode=mode_of(t), name='%s.sdiv_%d%d%s' % (U.name, C, R, sfx_of(t)),
                        mutant=mktwin(sp_sdiv), timeout=S.cap(60, 180), bounds='all entries != 0' + ('' if isflt(t) else ', no INT_MIN/-1; C++ truncating division'))
     return run
+def job_sal(t, shapes, U=None):
+    U = U or UNITS[t]
+    def run(S):
+        for (C, R) in shapes:
+            N = C * R; dv = sdivf(t); ents = SAL_ENTRIES(C, R)
+            fs = {'+=': lambda x, y: x + y, '-=': lambda x, y: x - y, '*=': lambda x, y: x * y, '/=': dv}
+            def tab(i, shifted=False):
+                g = []
+                for io, op in enumerate(SAL_OPS):
+                    for ie, (c_, r_) in enumerate(ents):
+                        e = i[0][c_ * R + r_]
+                        for k in range(N):
+                            g.append(('m%sm[%d][%d].[%d][%d]' % (op, c_, r_, k // R, k % R), 0, (io * len(ents) + ie) * N + k, fs[op](i[0][(k + 1) % N if shifted else k], e)))
+                return g
+            pre = lambda i: [h for (c_, r_) in ents for x in i[0] for h in div_ok(t, x, i[0][c_ * R + r_])]
+            S.check_fn(U, 'sal_%d%d' % (C, R), mkspec(tab), pre, mode=mode_of(t), name='%s.sal_%d%d%s' % (U.name, C, R, sfx_of(t)), mutant=mktwin(tab), timeout=S.cap(60, 180),
+                       bounds='all entry values with the three aliased elements != 0' + ('' if isflt(t) else ' (no INT_MIN/-1)') + '; right-hand side is m[0][0], m[1][1] or the last element of the assigned matrix')
+            fp_validate(S, U, 'sal_%d%d' % (C, R), t)
+    return run
 def job_tr(t, shapes, U=None):
     U = U or UNITS[t]
     def run(S):
@@ -524,6 +549,7 @@ def jobs(tier):
         for C in (2, 3, 4):
             J.append(('ew_%s_%dxN' % (t, C), job_ew(t, [(C, r) for r in (2, 3, 4)])))
             J.append(('tr_%s_%dxN' % (t, C), job_tr(t, [(C, r) for r in (2, 3, 4)])))
+            J.append(('sal_%s_%dxN' % (t, C), job_sal(t, [(C, r) for r in (2, 3, 4)])))
             J.append(('cv_%s_%dxN' % (t, C), job_cv(t, [(C, r) for r in (2, 3, 4)])))
         J.append(('gtx_%s' % t, job_gtx(t)))
     for t in ('f32', 'f64'):
